@@ -69,10 +69,31 @@ Fixpoint bools_eqb (a b : list bool) : bool :=
   | _, _ => false
   end.
 
+(* the hypothesis of the When theorems, evaluated on the observed events: a
+   When / WhenNot call outside the apply window reads the activity that
+   processSubscriptions has told the manager so far *)
+Fixpoint coherent_b (n : nat) (told : list nat) (es : list sevent) : bool :=
+  match es with
+  | [] => true
+  | e :: r =>
+    match e with
+    | EOp _ v (OWhen _ _) | EOp _ v (OWhenNot _ _) =>
+      v_applied v || forallb (fun x => Bool.eqb (mem x (v_active v)) (mem x told)) (seq 0 n)
+    | _ => true
+    end
+    && coherent_b n
+         (match e with
+          | EProcess act deact _ _ _ =>
+            filter (fun x => mem x act || (mem x told && negb (mem x deact))) (seq 0 n)
+          | _ => told
+          end) r
+  end.
+
 (* kind 1: 100+c = EvalHist.hist_mismatch code c; 20 what an op returned
    (kind / identity / closed at return / ctx tick); 21 closed flags of a poll;
    22 number of polls; 23 the model predicts a panic inside
-   processSubscriptions (the generator must not produce that) *)
+   processSubscriptions (the generator must not produce that); 24 the events
+   of a fault-free history are not coherent (hypothesis of the When theorems) *)
 Definition mismatch (k : c06case) : list N :=
   let es := case_events k in
   let n := length (k_ops k) in
@@ -80,13 +101,15 @@ Definition mismatch (k : c06case) : list N :=
   let c0 := closed_at_return init_sst es in
   map (fun c => (100 + c)%N) (hist_mismatch (k_hist k))
   ++ (if ss_crashed s then [23%N] else [])
+  ++ (if has_faults (k_hist k)
+         || coherent_b (length (h_schema (k_hist k))) (h_init (k_hist k)) es then [] else [24%N])
   ++ (if lists_eqb opobs_eqb (map (model_ret s c0) (seq 0 n)) (o_rets k) then [] else [20%N])
   ++ (if Nat.eqb (length polls) (length (o_polls k)) then
         (if lists_eqb bools_eqb polls (o_polls k) then [] else [21%N])
       else [22%N]).
 
 Definition viol (k : c06case) : list N :=
-  violations (has_faults (k_hist k)) (case_events k) (o_rets k) (o_polls k).
+  violations (case_events k) (o_rets k) (o_polls k).
 
 Definition check_one (ic : N * c06case) : list (N * N * N) :=
   let '(i, k) := ic in
